@@ -321,6 +321,7 @@ source_release_buffer(void *buffer)
 
   VERIF_YIELD(VS_SRC_RELEASE, 0);
   xlock(&source_mutex);
+  VERIF_ASSERT(in_slots < total_in_slots);
   if (in_slots++ == 0)
     xsignal(&source_cond);
   xunlock(&source_mutex);
@@ -451,6 +452,18 @@ worker_thread_proc(void)
   for (;;) {
     while (next_task != NULL) {
       Trace(("worker[%2u]: scheduling task '%s'...", id, next_task->name));
+#ifdef KJN_LBZIP2_VERIF
+      {
+        /* The task about to run is ready and no task of higher priority is. */
+        const struct task *t;
+
+        for (t = process->tasks; t != next_task; ++t)
+          VERIF_ASSERT(!t->ready());
+        VERIF_ASSERT(next_task->ready());
+        VERIF_EVENT(VE_TASK, next_task - process->tasks, work_units,
+                    out_slots);
+      }
+#endif
       next_task->run();
       select_task();
     }
@@ -484,6 +497,10 @@ sched_lock(void)
 void
 sched_unlock(void)
 {
+  /* Resource conservation, checked under the lock that guards the counters. */
+  VERIF_ASSERT(work_units <= num_worker);
+  VERIF_ASSERT(out_slots <= total_out_slots);
+
   select_task();
 
   if (next_task != NULL || process->finished())
